@@ -9,7 +9,7 @@ for rp in sorted(glob.glob("/verif/seeded/*/replay-*.json")):
     except Exception:
         continue
     txt = json.dumps(r.get("case"))
-    if r.get("mode") in ("poweron", "factory", "big") or '"workflow": "poweron"' in txt or '"workflow": "factory"' in txt or len(txt) > 60000:
+    if r.get("mode") in ("poweron", "factory", "big") or '"workflow": "poweron"' in txt or '"workflow": "factory"' in txt or len(txt) > 60000 or '"scale": "1E6"' in txt or '"race": true' in txt:
         print("skip (expensive)", rp); continue
     dst = f"/verif/replays/{prop}-seed-{name}.json"
     if os.path.exists(dst):
